@@ -52,10 +52,12 @@ def _walk_own(func: ast.AST):
     while stack:
         n = stack.pop()
         yield n
-        for fld in ("body", "orelse", "finalbody", "handlers"):
+        kids = []
+        for fld in ("body", "handlers", "orelse", "finalbody"):
             sub = getattr(n, fld, None)
             if isinstance(sub, list) and not isinstance(n, (ast.FunctionDef, ast.AsyncFunctionDef, ast.ClassDef)):
-                stack.extend(reversed(sub))
+                kids.extend(sub)
+        stack.extend(reversed(kids))
 
 
 def _select(func: ast.AST, sel: tuple) -> ast.AST:
@@ -89,6 +91,12 @@ def _select(func: ast.AST, sel: tuple) -> ast.AST:
                     raise Unsupported("bare return")
                 return st.value
             count += 1
+        elif kind == "lambda":
+            for sub in ast.walk(st):
+                if isinstance(sub, ast.Lambda):
+                    if count == sel[1]:
+                        return sub.body
+                    count += 1
         elif kind == "callarg":
             for sub in ast.walk(st):
                 if isinstance(sub, ast.Call) and _callee(sub) == sel[1]:
@@ -168,6 +176,8 @@ class Translator:
                 return ident
             if have == "Z" and want == "bool":
                 return f"(negb ({ident} =? 0))"
+            if have == "list Z" and want == "bool":
+                return f"(negb (Nat.eqb (length {ident}) 0))"
             raise Unsupported(f"{ident} : {have} used as {want}")
         self.depth += 1
         if self.depth > 20:
@@ -280,9 +290,31 @@ class Translator:
             return self.name(d, "bool")
         raise Unsupported(f"bool node {type(e).__name__}")
 
+    def s(self, e: ast.AST) -> str:
+        """str-valued expressions as lists of code points"""
+        if isinstance(e, ast.Constant) and isinstance(e.value, str):
+            return "[" + "; ".join(str(ord(c)) for c in e.value) + "]"
+        if isinstance(e, ast.JoinedStr):
+            parts = []
+            for v in e.values:
+                if isinstance(v, ast.Constant):
+                    parts.append(self.s(v))
+                elif isinstance(v, ast.FormattedValue) and v.conversion == -1 and v.format_spec is None:
+                    parts.append(self.s(v.value))
+                else:
+                    raise Unsupported("format spec in f-string")
+            return "(" + " ++ ".join(parts or ["[]"]) + ")"
+        if isinstance(e, ast.Name):
+            return self.name(e.id, "list Z")
+        if isinstance(e, ast.BinOp) and isinstance(e.op, ast.Add):
+            return f"({self.s(e.left)} ++ {self.s(e.right)})"
+        raise Unsupported(f"str node {type(e).__name__}")
+
     def any(self, e: ast.AST, ty: str) -> str:
         if ty == "Z":
             return self.z(e)
+        if ty == "list Z":
+            return self.s(e)
         if ty == "bool":
             return self.b(e)
         if ty.startswith("("):  # tuple type "(Z * Z)"
@@ -512,6 +544,15 @@ def generate(kernels: t.Sequence[Kernel]) -> t.Dict[str, dict]:
                 text = fh.read()
         status[k.name]["text"] = text
         out.append(text + "\n")
+    from . import kernel_table as _kt
+
+    for prop, file, fsync, fasync, ren in getattr(_kt, "TWINS", []):
+        same, why = same_modulo_async(file, fsync, fasync, ren)
+        nm = "twin_" + fsync.strip("_").replace(".", "_")
+        status[nm] = {"located": True, "source": f"{file}: {fsync} vs {fasync}: {why}", "same": same}
+        cmt = why.replace("(*", "( *").replace("*)", "* )")
+        out.append(f"(* {file}: {fsync} and {fasync} compared as normalised ASTs: {cmt} *)\n"
+                   f"Definition {nm} : bool := {'true' if same else 'false'}.\n\n")
     new = "".join(out)
     path = os.path.join(COQ, "gen", "Kernels.v")
     old = None
@@ -523,6 +564,56 @@ def generate(kernels: t.Sequence[Kernel]) -> t.Dict[str, dict]:
         with open(path, "w") as fh:
             fh.write(new)
     return status
+
+
+def same_modulo_async(file: str, sync_name: str, async_name: str, renames: t.Dict[str, str]) -> t.Tuple[bool, str]:
+    """Normalised-AST comparison of a sync function and its async twin: `await` dropped,
+    `async with`/`async for` -> plain, names renamed by `renames` (async spelling -> sync spelling),
+    docstrings dropped. Returns (equal, reason)."""
+    _AST_CACHE.pop(os.path.join(REPO_SRC, file), None)
+    try:
+        mod = _module(file)
+        fs = _find_func(mod, sync_name)
+        fa = _find_func(mod, async_name)
+    except (Unsupported, OSError, SyntaxError) as exc:
+        return False, f"not located: {exc}"
+
+    class Norm(ast.NodeTransformer):
+        def visit_Await(self, node):
+            return self.visit(node.value)
+
+        def visit_AsyncWith(self, node):
+            self.generic_visit(node)
+            return ast.With(items=node.items, body=node.body)
+
+        def visit_AsyncFor(self, node):
+            self.generic_visit(node)
+            return ast.For(target=node.target, iter=node.iter, body=node.body, orelse=node.orelse)
+
+        def visit_Name(self, node):
+            return ast.Name(id=renames.get(node.id, node.id), ctx=node.ctx)
+
+        def visit_Attribute(self, node):
+            self.generic_visit(node)
+            return ast.Attribute(value=node.value, attr=renames.get(node.attr, node.attr), ctx=node.ctx)
+
+    def norm(f):
+        body = list(f.body)
+        if body and isinstance(body[0], ast.Expr) and isinstance(body[0].value, ast.Constant) and isinstance(body[0].value.value, str):
+            body = body[1:]
+        m = ast.Module(body=[Norm().visit(b) for b in body], type_ignores=[])
+        args = ast.unparse(f.args)
+        return args + "\n" + ast.unparse(ast.fix_missing_locations(m))
+
+    import copy
+
+    a, b = norm(copy.deepcopy(fs)), norm(copy.deepcopy(fa))
+    if a == b:
+        return True, "identical after normalisation"
+    import difflib
+
+    d = "\n".join(list(difflib.unified_diff(a.split("\n"), b.split("\n"), lineterm="", n=0))[:12])
+    return False, d
 
 
 def write_fallbacks(kernels: t.Sequence[Kernel]) -> None:
